@@ -38,7 +38,92 @@ def shards(tier):
         for a in [x for x in alignsweep.strings(sc["triple4_alpha"], 4, 4) if alignsweep.canonical(x) == x]:
             for prefix in (True, False):
                 out.append(dict(kind="triples4", first=a, prefix=prefix, tier=tier))
+    # lengths at which an absolute error count k, stored as the rate k/L, comes back as int(rate * L) == k - 1 (47, 49),
+    # with 48 as a control: index and adapters must agree on the tolerance there, too
+    for L, k in ((49, 1), (49, 2), (48, 1), (48, 2)) + (((47, 3),) if tier == "thorough" else ()):
+        for prefix in (True, False):
+            out.append(dict(kind="rounding", len=L, k=k, prefix=prefix, tier=tier, first=None))
     return out
+
+
+ROUND_SEEDS = ["ACGTTGCAAGCTTCGA", "GATTACAGGCTTAACC", "TTGGCCAATCGATCGA"]
+
+
+def _mutants(s, emax):
+    """s with e = 0..emax substitutions: every single position, position pairs at three strides, triples at one pattern."""
+    nxt = {"A": "C", "C": "G", "G": "T", "T": "A"}
+    L = len(s)
+
+    def sub(pos):
+        t = list(s)
+        for p in pos:
+            t[p] = nxt[t[p]]
+        return "".join(t)
+
+    out = [((), s)]
+    if emax >= 1:
+        out += [((i,), sub((i,))) for i in range(L)]
+    if emax >= 2:
+        out += [((i, i + d), sub((i, i + d))) for d in (1, 7, 23) for i in range(0, L - d, 2)]
+    if emax >= 3:
+        out += [((i, i + 5, i + 11), sub((i, i + 5, i + 11))) for i in range(0, L - 11, 3)]
+    if emax >= 4:
+        out += [((i, i + 3, i + 9, i + 17), sub((i, i + 3, i + 9, i + 17))) for i in range(0, L - 17, 5)]
+    return out
+
+
+def run_rounding(d, res):
+    from cutadapt.adapters import (PrefixAdapter, SuffixAdapter, IndexedPrefixAdapters, IndexedSuffixAdapters, MultipleAdapters)
+
+    V = res["viol"]
+    L, k, prefix = d["len"], d["k"], d["prefix"]
+    Cls = PrefixAdapter if prefix else SuffixAdapter
+    Idx = IndexedPrefixAdapters if prefix else IndexedSuffixAdapters
+    seqs = [(x * 4)[:L] for x in ROUND_SEEDS]
+    for indels in ((False, True) if k == 1 else (False,)):
+        ads = [Cls(s_, max_errors=k, indels=indels, name=f"a{i}") for i, s_ in enumerate(seqs)]
+        allowed = [int(a.max_error_rate * len(a.sequence)) for a in ads]
+        idx = Idx(ads)
+        res["builds"] += 1
+        multi = MultipleAdapters(ads)
+        cfg = dict(adapters=seqs, max_errors=k, rate=ads[0].max_error_rate, indels=indels, end="5'" if prefix else "3'",
+                   allowed_errors=allowed, family="rounding")
+        for w, s_ in enumerate(seqs):
+            for pos, mut in _mutants(s_, k + 1):
+                for flank in ("", "GGA"):
+                    r = (mut + flank) if prefix else (flank + mut)
+                    n = len(r)
+                    mt = idx.match_to(r)
+                    ot = multi.match_to(r)
+                    res["evals"] += 1
+                    res["nontrivial"] += 1
+                    e = len(pos)
+                    a = None if mt is None else (mt.adapter.name, mt.rstart, mt.rstop, mt.errors)
+                    b = None if ot is None else (ot.adapter.name, ot.rstart, ot.rstop, ot.errors)
+                    if mt is not None:
+                        res["matches"] += 1
+                        ok = 0 <= mt.rstart <= mt.rstop <= n and ((mt.rstart == 0) if prefix else (mt.rstop == n))
+                        if not ok:
+                            V.append(("coords", "reported coordinates lie outside the read / are not anchored", dict(cfg, read=r, match=list(a))))
+                            continue
+                        wi = int(mt.adapter.name[1:])
+                        dist = refalign.distance(seqs[wi], r[mt.rstart:mt.rstop], False, False, indels)
+                        if dist != mt.errors or dist > allowed[wi]:
+                            V.append(("errors", f"removed affix has true distance {dist} to the adapter (allowed {allowed[wi]}), reported {mt.errors}",
+                                      dict(cfg, read=r, match=list(a))))
+                            continue
+                    # the mutated adapter is the only one anywhere near: within tolerance it must be reported
+                    if e <= allowed[w]:
+                        res["clause2"] += 1
+                        if mt is None or mt.adapter.name != f"a{w}":
+                            V.append(("unique-missed", "exactly one indexed adapter occurs within tolerance but the index does not report it",
+                                      dict(cfg, read=r, occurring=s_, reported=None if a is None else list(a))))
+                    if not indels:
+                        res["clause3"] += 1
+                        if a != b:
+                            V.append(("index-vs-linear", "indexed and one-by-one search disagree although the nearest adapter is unique",
+                                      dict(cfg, read=r, indexed=a, one_by_one=b)))
+    return res
 
 
 _RS = {}
@@ -95,7 +180,7 @@ def run_shard(d):
                                    MultipleAdapters)
 
     sc = _scope(d["tier"])
-    nmax = sc["nmax"] if d["kind"] == "pairs" else sc["triple_nmax"]
+    nmax = sc["nmax"] if d["kind"] in ("pairs", "rounding") else sc["triple_nmax"]
     rates = sc["rates"] if d["kind"] == "pairs" else sc["triple_rates"]
     rs, nplain = _reads(nmax)
     reads = rs.reads
@@ -105,6 +190,9 @@ def run_shard(d):
     Idx = IndexedPrefixAdapters if prefix else IndexedSuffixAdapters
     res = dict(evals=0, builds=0, nontrivial=0, matches=0, clause2=0, clause3=0, viol=common.Viols(cap=3), samples=[])
     V = res["viol"]
+    if d["kind"] == "rounding":
+        return run_rounding(d, res)
+    case_nmax = 4
     first = d["first"]
     if d["kind"] == "pairs":
         pool = [a for L in sc["lens"] for a in alignsweep.strings(sc["alpha"], L, L)]
@@ -165,6 +253,16 @@ def run_shard(d):
                             V.append(("errors", f"removed affix has true distance {dist} to the adapter (allowed {ks[w]}), reported {mt.errors}",
                                       dict(cfg, read=r, match=[mt.adapter.sequence, rstart, rstop, mt.errors])))
                             continue
+                    if n <= case_nmax and n:
+                        # lower- and mixed-case spellings of the read must give the same answer (coordinates, adapter, errors)
+                        a = None if mt is None else (mt.adapter.name, mt.rstart, mt.rstop, mt.errors)
+                        for sp in (r.lower(), "".join(ch.lower() if k % 2 else ch for k, ch in enumerate(r))):
+                            lt = match_to(sp)
+                            res["evals"] += 1
+                            b = None if lt is None else (lt.adapter.name, lt.rstart, lt.rstop, lt.errors)
+                            if a != b:
+                                V.append(("case", "the index answers differently for a lower-/mixed-case spelling of the same read",
+                                          dict(cfg, read=sp, upper_case_answer=a, answer=b)))
                     if nfree and len(occ) == 1:
                         res["clause2"] += 1
                         if mt is None or byname.get(mt.adapter.name) != occ[0]:
@@ -207,7 +305,9 @@ def run(tier):
     return R.finish(tot.get("evals", 0), tot.get("nontrivial", 0),
                     "adapter sets = all ordered pairs (first canonical) of strings over {A,C,G} of the stated lengths + all ordered "
                     "triples of equal-length strings; x 5-6 error rates (allowed errors 0-3, differing between adapters of different "
-                    "length) x indels on/off x anchored 5'/3' x ALL reads over ACGT up to the stated length + reads with one N; "
+                    "length) x indels on/off x anchored 5'/3' x ALL reads over ACGT up to the stated length + reads with one N, each also in lower and "
+                    "mixed case; + three adapters of lengths 47-49 with ABSOLUTE error counts (where k/L*L truncates to k-1) against every "
+                    "0..k+1-substitution neighbour pattern listed in the source; "
                     "non-trivial = at least one adapter occurs within tolerance at the anchored end",
                     True, extra=dict(scope=_scope(tier)))
 
@@ -221,8 +321,13 @@ def replay(path):
     c = v["case"]
     prefix = c["end"] == "5'"
     Cls = PrefixAdapter if prefix else SuffixAdapter
-    ads = [Cls(s, max_errors=c["rate"], indels=c["indels"], name=f"a{i}") for i, s in enumerate(c["adapters"])]
+    ads = [Cls(s, max_errors=c.get("max_errors", c["rate"]), indels=c["indels"], name=f"a{i}") for i, s in enumerate(c["adapters"])]
     idx = (IndexedPrefixAdapters if prefix else IndexedSuffixAdapters)(ads)
+    if v["sig"].split(":")[1] == "case":
+        g = lambda m: None if m is None else (m.adapter.name, m.rstart, m.rstop, m.errors)
+        up, lo = g(idx.match_to(c["read"].upper())), g(idx.match_to(c["read"]))
+        print("upper-case spelling:", up, " given spelling:", lo)
+        return 0 if up == lo else 1
     mt = idx.match_to(c["read"])
     ot = MultipleAdapters(ads).match_to(c["read"])
     f = lambda m: None if m is None else [m.adapter.sequence, m.rstart, m.rstop, m.errors]
@@ -233,6 +338,6 @@ def replay(path):
         bad = bad or f(mt) != f(ot)
     if mt is not None and not bad:
         w = ads.index(mt.adapter)
-        d = refalign.distance(c["adapters"][w], c["read"][mt.rstart:mt.rstop], False, False, c["indels"])
+        d = refalign.distance(c["adapters"][w], c["read"][mt.rstart:mt.rstop].upper(), False, False, c["indels"])
         bad = d != mt.errors or d > c["allowed_errors"][w]
     return 1 if bad else 0
